@@ -42,8 +42,8 @@ func (dn SuDnum) String() string {
 }
 
 func (dn SuDnum) Hash() uint64 {
-	if n, ok := dn.ToInt64(); ok && MinSuInt <= n && n <= MaxSuInt {
-		// must give the same hash as SuInt
+	if n, ok := dn.ToInt64(); ok {
+		// must give the same hash as SuInt and SuInt64
 		return uint64(n) * phi64
 	}
 	return dn.Dnum.Hash()
@@ -57,7 +57,9 @@ func (dn SuDnum) Equal(other any) bool {
 	if d2, ok := other.(SuDnum); ok {
 		return dnum.Equal(dn.Dnum, d2.Dnum)
 	} else if i, ok := SuIntToInt(other); ok {
-		return dnum.Equal(dn.Dnum, dnum.FromInt(int64(i)))
+		// not via dnum.FromInt which rounds to 16 digits
+		n, ok := dn.ToInt64()
+		return ok && n == int64(i)
 	}
 	return false
 }
@@ -70,8 +72,24 @@ func (dn SuDnum) Compare(other Value) int {
 	if cmp := cmp.Compare(ordNum, Order(other)); cmp != 0 {
 		return cmp * 2
 	}
-	// now know other is a number and ToDnum won't panic
-	return dnum.Compare(dn.Dnum, ToDnum(other))
+	if i, ok := SuIntToInt(other); ok {
+		return -compareIntDnum(int64(i), dn.Dnum)
+	}
+	return dnum.Compare(dn.Dnum, other.(SuDnum).Dnum)
+}
+
+// compareIntDnum compares an integer with a Dnum exactly.
+// (Converting the integer to a Dnum would round it to 16 digits.)
+func compareIntDnum(i int64, dn dnum.Dnum) int {
+	if n, ok := dn.ToInt64(); ok {
+		return cmp.Compare(i, n)
+	}
+	// dn is not an int64 so it cannot be equal to i
+	if c := dnum.Compare(dnum.FromInt(i), dn); c != 0 {
+		return c
+	}
+	// equal after rounding i, so dn is just outside the int64 range
+	return -dn.Sign()
 }
 
 func (SuDnum) SetConcurrent() {
